@@ -1,4 +1,5 @@
 import Utcp.Lemmas.Retain
+import Utcp.Lemmas.CloseMark
 import Utcp.Props.C16
 import Utcp.Props.C10
 import Utcp.Lemmas.Link
@@ -17,8 +18,14 @@ and periodic updates — in any interleaving:
   closed or not — only when it holds none (`teardown_waits_for_acks`).
 
 Together with C02 (`ack_sound`: a positive status is reported only for a packet the peer accepted) and C01/C04 across the link this is
-the sender's half of "closing a channel never discards reliable data still in flight".  Not proved here: that the retransmissions
-eventually get through (liveness), and the receiver's half beyond the local theorems of `Props/C10.lean`.
+the sender's half of "closing a channel never discards reliable data still in flight".
+
+The receiver's half (second part of the file, `Lemmas/CloseMark.lean`): over the same histories a channel is *marked* closed only by a
+callback that delivered a close bunch on it — i.e. in sequence, after all its predecessors — or by the local application's own close
+(`marked_only_by_close`); and `utcp_update` removes a channel only if it is so marked and holds nothing awaiting acknowledgement
+(`teardown_only_after_close`).
+
+Not proved here: that the retransmissions eventually get through (liveness).
 -/
 namespace Utcp.Props.C10Hist
 open Utcp Utcp.Gen Utcp.Props
@@ -103,6 +110,87 @@ theorem nak_requeues (e : Env) (pid : Int) (chs : List Nat) (c : Conn) (ch : Nat
 record; a channel that still holds one (the close bunch itself, or anything sent before it) survives -/
 theorem teardown_waits_for_acks (e : Env) (c : Conn) (h : BInvK c 0) (ch : Nat) (b : Bits) (hb : b ∈ recBits c ch) :
     b ∈ recBits (c.checkTimeout e).updateTail.1 ch := update_rkeep e c h.sorted ch b hb
+
+/-! ## the receiver's half: a channel is marked closed — and torn down — only after its close bunch was delivered -/
+
+/-- the channels on which the local application's close bunch was accepted in a history -/
+def localCloses : Conn → List (Env × C18.Op) → List Nat → List Nat
+  | _, [], L => L
+  | c, (e, .send b) :: rest, L => localCloses (C18.apply e c (.send b)) rest (c.closedAfter b L)
+  | c, (e, op) :: rest, L => localCloses (C18.apply e c op) rest L
+
+theorem closedAfter_mono (c : Conn) (b : Bunch) (L : List Nat) : ∀ x ∈ L, x ∈ c.closedAfter b L := by
+  intro x hx
+  unfold Conn.closedAfter
+  split
+  · exact hx
+  · split
+    · exact List.mem_cons_of_mem _ hx
+    · exact hx
+
+theorem run_closeinv (ops : List (Env × C18.Op)) : ∀ (c : Conn) (L : List Nat), CloseInv L c → BInvK c 0 →
+    CloseInv (localCloses c ops L) (C18.run c ops) := by
+  induction ops with
+  | nil => intro c L h _; exact h
+  | cons p rest ih =>
+    intro c L h hb
+    obtain ⟨e, op⟩ := p
+    have hb' := C16.step_balance e c op hb
+    cases op with
+    | send b => exact ih _ _ (sendBunch_closeinv L e c b h) hb'
+    | flush => exact ih _ _ (h.step (flush_cstep e c)) hb'
+    | recv bits => exact ih _ _ (h.step (receivedPacket_cstep e c bits)) hb'
+    | update => exact ih _ _ (h.step (update_cstep e c hb.sorted)) hb'
+
+/-- **every close mark has a reason**: after any history (sends, flushes, incoming packets of any bits, updates), a channel that is
+marked closed had a close bunch handed to the application on it — by a callback in the log, i.e. delivered in sequence — or the local
+application itself sent a close bunch on it -/
+theorem marked_only_by_close (ops : List (Env × C18.Op)) (i o : Int) (ch : Nat) (x : Channel)
+    (hx : (C18.run (({} : Conn).seqInit i o) ops).getChan ch = some x) (hb : x.bClose = true) :
+    ClosedBy (C18.run (({} : Conn).seqInit i o) ops).log ch ∨ ch ∈ localCloses (({} : Conn).seqInit i o) ops [] := by
+  have h0 : CloseInv [] (({} : Conn).seqInit i o) := by
+    intro ch x hx; have : (({} : Conn).seqInit i o).getChan ch = none := rfl; rw [this] at hx; cases hx
+  exact run_closeinv ops _ [] h0 (C16.fresh_balance i o) ch x hx hb
+
+/-- **the receiver does not tear a channel down before its close bunch has been delivered in sequence**: if `utcp_update`, after any
+history, removes (or alters) a channel, then that channel held nothing awaiting acknowledgement, and a close bunch had been handed to
+the application on it — or the local application had closed it -/
+theorem teardown_only_after_close (ops : List (Env × C18.Op)) (e : Env) (i o : Int) (ch : Nat) (x : Channel)
+    (hx : (C18.run (({} : Conn).seqInit i o) ops).getChan ch = some x)
+    (hgone : ((C18.run (({} : Conn).seqInit i o) ops).checkTimeout e).updateTail.1.getChan ch ≠ some x) :
+    x.outRec = [] ∧ (ClosedBy (C18.run (({} : Conn).seqInit i o) ops).log ch ∨ ch ∈ localCloses (({} : Conn).seqInit i o) ops []) := by
+  have hbal := C16.run_balance ops _ (C16.fresh_balance i o)
+  have hmark := marked_only_by_close ops i o ch x hx
+  generalize C18.run (({} : Conn).seqInit i o) ops = c at hx hgone hbal hmark ⊢
+  -- the update's view of the channel table is the teardown's
+  have hview : (c.checkTimeout e).updateTail.1.getChan ch = (c.checkTimeout e).delayClose.getChan ch := by
+    unfold Conn.updateTail; dsimp only; split <;> rfl
+  have hct : (c.checkTimeout e).getChan ch = some x := by
+    unfold Conn.checkTimeout; split
+    · rw [markClose_getChan]; exact hx
+    · exact hx
+  have hsorted : KeysSorted (c.checkTimeout e).chans := by
+    unfold Conn.checkTimeout; split
+    · rw [markClose_chans]; exact hbal.sorted
+    · exact hbal.sorted
+  have huniq : ∀ p ∈ (c.checkTimeout e).chans, p.1 = ch → p.2 = x := by
+    intro p hp he
+    have := find_of_mem_sorted _ p hsorted hp
+    unfold Conn.getChan at hct
+    rw [he] at this
+    rw [this] at hct
+    exact Option.some.inj hct
+  by_cases hk : x.bClose = false ∨ x.outRec ≠ []
+  · exact absurd (by rw [hview]; exact C10.teardown_keeps _ ch x hct hk huniq) hgone
+  · have hb : x.bClose = true := by
+      cases h : x.bClose with
+      | true => rfl
+      | false => exact absurd (Or.inl h) hk
+    have ho : x.outRec = [] := by
+      cases h : x.outRec with
+      | nil => rfl
+      | cons a t => exact absurd (Or.inr (by rw [h]; simp)) hk
+    exact ⟨ho, hmark hb⟩
 
 /-! non-vacuity: a closing reliable bunch is recorded and survives an update -/
 example : recBits ((((({} : Conn).seqInit 3 7).sendBunch {} { chIndex := 1, bOpen := true, bClose := true, bReliable := true }).1.checkTimeout {}).updateTail.1) 1 ≠ [] := by
